@@ -1297,7 +1297,7 @@ def parseFrom (s : Str) (o : Opts) (t : List Char) : Outcome × List Char :=
   | (.error e, t) => (.exn e, t)
   | (.ok none, t) => (.parts [], t)
   | (.ok (some first), t) =>
-    match parseLoop s o (s.length + 1) (nextIndex first) [first] t with
+    match parseLoop s o (s.length + 1) (max (nextIndex first) 1) [first] t with
     | (.error e, t) => (.exn e, t)
     | (.ok parts, t) => (.parts parts, t)
 
@@ -1328,9 +1328,9 @@ theorem parseFrom_touched_irrelevant (s : Str) (o : Opts) (t : List Char) :
     | none => rfl
     | some first =>
       simp only
-      have h3 := parseLoop_touched_irrelevant s o (s.length + 1) (nextIndex first) [first] u u'
-      rcases h4 : parseLoop s o (s.length + 1) (nextIndex first) [first] u with ⟨r1, u1⟩
-      rcases h5 : parseLoop s o (s.length + 1) (nextIndex first) [first] u' with ⟨r2, u2⟩
+      have h3 := parseLoop_touched_irrelevant s o (s.length + 1) (max (nextIndex first) 1) [first] u u'
+      rcases h4 : parseLoop s o (s.length + 1) (max (nextIndex first) 1) [first] u with ⟨r1, u1⟩
+      rcases h5 : parseLoop s o (s.length + 1) (max (nextIndex first) 1) [first] u' with ⟨r2, u2⟩
       rw [h4, h5] at h3
       simp only at h3
       subst h3
@@ -1355,7 +1355,7 @@ def parseLoopAsked (s : Str) (o : Opts) : Nat → Nat → List Char → List Que
     if index < s.length then
       runParserAsked (s.drop index) o t ++
         match runParser (s.drop index) o t with
-        | (.ok (some part), t') => parseLoopAsked s o fuel (nextIndex (part.shift index)) t'
+        | (.ok (some part), t') => parseLoopAsked s o fuel (max (nextIndex (part.shift index)) (index + 1)) t'
         | _ => []
     else []
 
@@ -1363,7 +1363,7 @@ def parseLoopAsked (s : Str) (o : Opts) : Nat → Nat → List Char → List Que
 def parseAsked (s : Str) (o : Opts) : List Query :=
   runParserAsked s o [] ++
     match runParser s o [] with
-    | (.ok (some first), t) => parseLoopAsked s o (s.length + 1) (nextIndex first) t
+    | (.ok (some first), t) => parseLoopAsked s o (s.length + 1) (max (nextIndex first) 1) t
     | _ => []
 
 theorem parseLoop_strict_irrelevant (s : Str) (o : Opts) (b : Bool) :
